@@ -204,9 +204,24 @@ def lake_build(targets, timeout=1500):
     return rc == 0, out
 
 
+def prop_modules(prop):
+    """The property modules of one property: KM.Props.<prop> and, when it exists, KM.Props.<prop>Go (theorems about
+    the functions translated from the current source by go2lean, kept in their own file)."""
+    mods = ["KM.Props." + prop]
+    if os.path.exists(os.path.join(LEAN, "KM", "Props", prop + "Go.lean")):
+        mods.append("KM.Props." + prop + "Go")
+    return mods
+
+
 def prop_theorems(prop):
-    """Names of the property theorems (prefix cNN_) of KM/Props/<prop>.lean, fully qualified."""
-    path = os.path.join(LEAN, "KM", "Props", prop + ".lean")
+    """Names of the property theorems (prefix cNN_) of KM/Props/<prop>.lean (and <prop>Go.lean), fully qualified."""
+    names = []
+    for mod in prop_modules(prop):
+        names += _file_theorems(prop, os.path.join(LEAN, *mod.split(".")) + ".lean")
+    return names
+
+
+def _file_theorems(prop, path):
     src = strip_comments(open(path).read())
     ns = []
     names = []
@@ -291,7 +306,7 @@ def prove(ctx, extra_modules=()):
         ctx.broken.append("lake build kmdriver (model/driver no longer compiles against regenerated KM/Gen)")
         ctx.notes.append(out_drv[-3000:])
     ctx.judge_bin = build_judge(ctx)
-    ok, out = lake_build(["KM.Props." + prop] + list(extra_modules))
+    ok, out = lake_build(prop_modules(prop) + list(extra_modules))
     names = prop_theorems(prop)
     discharged = 0
     axioms_used = set()
@@ -299,7 +314,8 @@ def prove(ctx, extra_modules=()):
     if ok:
         audit = os.path.join(ctx.work, "Audit.lean")
         with open(audit, "w") as f:
-            f.write("import KM.Props.%s\n" % prop)
+            for mod in prop_modules(prop):
+                f.write("import %s\n" % mod)
             for n in names:
                 f.write("#print axioms %s\n" % n)
         rc, aout = sh(["lake", "env", "lean", audit], cwd=LEAN, timeout=600)
@@ -325,7 +341,7 @@ def prove(ctx, extra_modules=()):
     if bad:
         ctx.broken.append("axiom audit: " + "; ".join(bad))
     if ctx.tier == "thorough" and ok:
-        rc, lout = sh(["lake", "env", "leanchecker", "KM.Props." + prop], cwd=LEAN, timeout=1200)
+        rc, lout = sh(["lake", "env", "leanchecker"] + prop_modules(prop), cwd=LEAN, timeout=1200)
         ctx.coverage["leanchecker"] = "ok" if rc == 0 else "FAILED: " + lout[-300:]
         if rc != 0:
             ctx.broken.append("leanchecker KM.Props.%s failed" % prop)
